@@ -23,7 +23,7 @@ def g_stencil(s, P):
         k = s.randint(1, 5)
         eps = s.choice([1e-4, 3e-4, 1e-3, 1e-2, 3e-2, 1e-1]) if s.chance(0.7) else s.loguniform(1e-4, 1e-1)
         zmask = [s.choice([0, 0, 0, 1, 2, 3]) for _ in range(k)]
-        P.add(s.choice(['C19.stencil_hess', 'C19.stencil_grad']), s.randint(0, 50), k, eps, zmask, s.choice(['list', 'tuple', 'array']))
+        P.add(s.choice(['C19.stencil_hess', 'C19.stencil_grad']), s.randint(0, 50), k, eps, zmask, s.choice(['list', 'tuple', 'array', 'array', 'intlist', 'intarray']))
     return P
 
 
@@ -63,6 +63,10 @@ def g_closed(s, P):
             kw['perm'] = perm
         if s.chance(0.4):
             kw['pts'] = s.choice([[12], [10, 12]])
+        if s.chance(0.4):
+            kw['pcont'] = s.choice(['array', 'tuple', 'intlist'] if all(float(v).is_integer() for v in p0) else ['array', 'tuple'])
+        if s.chance(0.25):
+            kw['dmask'] = s.choice([1, 2])
         P.add('C19.closed_form', fn, k, seed, ns, p0, multinom, eps, s.randint(0, 3), nboot, **kw)
     return P
 
@@ -88,7 +92,7 @@ def g_perm(s, P):
 def g_chi2(s, P):
     for _ in range(s.randint(1, 3)):
         w = s.choice([[0, 1], [0.5, 0.5], [0.25, 0.5, 0.25], [0.125, 0.375, 0.375, 0.125], [0.5, 0.6], [1.0, 0.0]])
-        xs = [s.loguniform(1e-3, 30) for _ in range(s.randint(1, 4))]
+        xs = [s.loguniform(1e-3, 30) if s.chance(0.85) else -s.loguniform(1e-3, 3) for _ in range(s.randint(1, 4))]
         P.add('C19.chi2', xs, w, s.choice(['scalar', 'array', 'list']))
     return P
 
@@ -111,7 +115,7 @@ def g_collide(s, P):
     variants = [dict(base)]
     for _ in range(s.randint(1, 3)):
         v = dict(base)
-        what = s.choice(['pts', 'ns', 'dseed', 'nboot', 'adjusts'])
+        what = s.choice(['pts', 'ns', 'dseed', 'nboot', 'adjusts', 'p0', 'p0'])
         if what == 'pts':
             v['pts'] = s.choice([[12], [10, 12], [14]])
         elif what == 'ns':
@@ -120,6 +124,14 @@ def g_collide(s, P):
             v['dseed'] = s.choice([0, 2, 3])
         elif what == 'nboot':
             v['nboot'] = nboot + s.randint(1, 3)
+        elif what == 'p0':
+            # same nested values, different values elsewhere (what a key built from the nested parameters alone cannot tell apart)
+            q = list(p0)
+            free = [i for i in range(k) if i not in kw0.get('nested', [])]
+            if free:
+                i = s.choice(free)
+                q[i] = s.choice([x for x in (0.5, 1.0, 2.0) if x != q[i]])
+            v['p0'] = q
         elif fn in ('GIM', 'LRT') and not multinom:
             v['adjusts'] = [s.choice([0.8, 1.25]) for _ in range(nboot)]
         variants.append(v)
@@ -129,11 +141,13 @@ def g_collide(s, P):
         kw['pts'] = v['pts']
         if v['adjusts']:
             kw['adjusts'] = v['adjusts'][:v['nboot']] + [1.0] * max(0, v['nboot'] - len(v['adjusts']))
-        P.add('C19.closed_form', fn, k, seed, v['ns'], list(p0), multinom, eps, v['dseed'], v['nboot'], **kw)
+        if s.chance(0.3):
+            kw['pcont'] = 'array'
+        P.add('C19.closed_form', fn, k, seed, v['ns'], list(v.get('p0', p0)), multinom, eps, v['dseed'], v['nboot'], **kw)
     return P
 
 
-TABLE = [(g_collide, 8), (g_stencil, 5), (g_closed, 12), (g_perm, 4), (g_chi2, 2), (G.g_godambe, 8), (G.g_godambe_real, 2), (G.g_spectrum, 1), (G.g_extrap, 1)]
+TABLE = [(g_collide, 8), (G.g_godambe_neg, 3), (g_stencil, 5), (g_closed, 12), (g_perm, 4), (g_chi2, 2), (G.g_godambe, 8), (G.g_godambe_real, 2), (G.g_spectrum, 1), (G.g_extrap, 1)]
 
 
 def gen(root, phase, idx, faults):
